@@ -36,7 +36,7 @@ func Mutate(t *rapid.T, seed, other []byte, maxMut int) ([]byte, []string) {
 		if len(b) == 0 {
 			b = append(b, 0)
 		}
-		kind := rapid.SampledFrom([]string{"bitflip", "bitflip", "byteset", "byteset", "size", "size", "size", "dims", "chunkdel", "chunkdup", "chunkswap", "fourcc", "truncate", "tail", "splice", "insert", "zero-run"}).Draw(t, "mutKind")
+		kind := rapid.SampledFrom([]string{"bitflip", "bitflip", "byteset", "byteset", "size", "size", "size", "dims", "chunkdel", "chunkdup", "chunkswap", "fourcc", "truncate", "tail", "splice", "insert", "zero-run", "truncfix", "truncfix"}).Draw(t, "mutKind")
 		hdrs := chunkHeaders(b)
 		pickHdr := func() int {
 			if len(hdrs) == 0 {
@@ -127,6 +127,10 @@ func Mutate(t *rapid.T, seed, other []byte, maxMut int) ([]byte, []string) {
 			p := rapid.IntRange(0, len(b)).Draw(t, "cut")
 			b = b[:p]
 			desc = append(desc, fmt.Sprintf("truncate@%d", p))
+		case "truncfix":
+			p := rapid.IntRange(0, len(b)).Draw(t, "cutfix")
+			b = TruncateFix(b, p)
+			desc = append(desc, fmt.Sprintf("truncfix@%d", p))
 		case "tail":
 			k := rapid.IntRange(1, 40).Draw(t, "tailN")
 			r := NewRng(rapid.Uint64().Draw(t, "tailSeed"))
@@ -163,4 +167,41 @@ func Mutate(t *rapid.T, seed, other []byte, maxMut int) ([]byte, []string) {
 		}
 	}
 	return b, desc
+}
+
+// TruncateFix cuts b at p (rounded down to even) and rewrites the RIFF size and the size of every
+// chunk the cut falls into (including the ANMF frame that encloses a cut bitstream), so that the
+// container is consistent again and only the innermost payload ends early: the damage is then
+// found by the bitstream decoders, deep inside their parse loops, not by the container checks.
+func TruncateFix(b []byte, p int) []byte {
+	p &^= 1
+	if p > len(b) {
+		p = len(b) &^ 1
+	}
+	out := append([]byte(nil), b[:p]...)
+	if p < 20 || string(out[0:4]) != "RIFF" {
+		return out
+	}
+	put32 := func(off, v int) {
+		out[off], out[off+1], out[off+2], out[off+3] = byte(v), byte(v>>8), byte(v>>16), byte(v>>24)
+	}
+	put32(4, p-8)
+	var walk func(start, end int)
+	walk = func(start, end int) {
+		off := start
+		for off+8 <= end && off+8 <= p {
+			sz := int(uint32(out[off+4]) | uint32(out[off+5])<<8 | uint32(out[off+6])<<16 | uint32(out[off+7])<<24)
+			id := string(out[off : off+4])
+			if sz < 0 || off+8+sz > p {
+				put32(off+4, p-(off+8))
+				if id == "ANMF" && off+8+16 <= p {
+					walk(off+8+16, p)
+				}
+				return
+			}
+			off += 8 + sz + sz&1
+		}
+	}
+	walk(12, p)
+	return out
 }
